@@ -105,6 +105,20 @@ def run(prop, tier, seed, verdict):
     G, M = dev.parse_outputs(gout), dev.parse_outputs(mout)
     disag = 0
     multi = set()
+    alone_memo = {}
+
+    def alone(p, key):
+        """the same list given to a fresh process: does the answer depend on what the process has seen before?"""
+        if len(alone_memo) >= 5:
+            return {}
+        if key not in alone_memo:
+            _, o, _ = dev.run_go(binary, "\n".join(["case a"] + ops_for(p)) + "\n", workdir, "c20alone", timeout=120)
+            a = dev.parse_outputs(o).get("a", [""])[:1]
+            same = a == G.get(key, [])[:1]
+            alone_memo[key] = {"in_a_fresh_process": a[0] if a else None, "depends_on_history": not same}
+            if not same:
+                alone_memo[key]["history"] = "case %s of %s (all cases before it run in the same process)" % (key, os.path.join(workdir, "c20.ops"))
+        return alone_memo[key]
     for i, (hs, perms) in enumerate(cases):
         ref = None
         for j, p in enumerate(perms):
@@ -125,16 +139,17 @@ def run(prop, tier, seed, verdict):
             if bad or len({g["phys"] for g in groups}) != len(groups):
                 verdict.violation({"clause": "partition"}, {"handlers": p, "implementation": gl[0]}, True)
             # (b) handler types and device type rule
-            for h, ht in zip(p, hts):
+            for pos, (h, ht) in enumerate(zip(p, hts)):
                 if ht != "DI_TYPE_" + handler_type(h["caps"]):
                     verdict.violation({"clause": "handler-type", "caps": sorted(set(h["caps"]))},
-                                      {"handler": h, "implementation": ht, "expected": handler_type(h["caps"])}, True)
+                                      dict({"handler": h, "event_node": "event%d" % pos, "implementation": ht, "expected": handler_type(h["caps"]),
+                                            "handlers": p}, **alone(p, key)), True)
             for g in groups:
                 tys = [handler_type(byname[m]["caps"]) for m in g["members"]]
                 exp = 3 if "JOYSTICK" in tys else 1 if "STD_KBD" in tys else 2 if tys == ["MOUSE"] else 0
                 if g["type"] != exp:
                     verdict.violation({"clause": "device-type", "handler_types": sorted(tys)},
-                                      {"handlers": p, "group": g, "expected_type": exp}, True)
+                                      dict({"handlers": p, "group": g, "expected_type": exp}, **alone(p, key)), True)
             # (c) order independence: same devices (location, type, member set); ids when all members agree
             canon = sorted((g["phys"], g["type"], tuple(sorted(g["members"])),
                             g["id"] if len({byname[m]["id"] for m in g["members"]}) == 1 else "*") for g in groups)
